@@ -417,12 +417,16 @@ class PeriodicGrid(Grid):
         # Minimal and maximal values of the integer coefficients used in
         # to construct all relevant integer linear combinations (``ilc``) of
         # lattice vectors to translate the center.
-        ilc_min = np.ceil(self._frac_intvls[:, 0] - frac_center - radius / self._spacings).astype(
-            int
-        )
-        ilc_max = np.floor(self._frac_intvls[:, 1] - frac_center + radius / self._spacings).astype(
-            int
-        )
+        # A small slack guards against rounding in the fractional coordinates: an image lying exactly
+        # on the cutoff sphere must not be lost because a bound that should be an integer is computed
+        # as 0.9999999999999999. (Extra translations are harmless: the ball query decides.)
+        slack = 1e-9
+        ilc_min = np.ceil(
+            self._frac_intvls[:, 0] - frac_center - radius / self._spacings - slack
+        ).astype(int)
+        ilc_max = np.floor(
+            self._frac_intvls[:, 1] - frac_center + radius / self._spacings + slack
+        ).astype(int)
 
         # C) Loop over all possible translations of the center
         # ----------------------------------------------------
